@@ -307,3 +307,84 @@ Section Minimax.
         destruct (Hall x Hx) as [<-|Hx']; [contradiction|exact Hx'].
   Qed.
 End Minimax.
+
+(* ------------------------------------------------------------------ *)
+(* Uniqueness: with pairwise distinct weights, the arcs of ANY connected arc relation
+   whose simple paths are all minimax paths are characterised without reference to the
+   relation itself.                                                    *)
+
+Section Unique.
+  Variable n : nat.
+  Variable w : nat -> nat -> Z.
+  Hypothesis w_dist : distinct_weights n w.
+
+  Lemma minimax_arc_is_sole (R : nat -> nat -> Prop) u v :
+    minimax_paths n w R -> u < n -> v < n -> u <> v -> R u v -> sole_minimax_arc n w u v.
+  Proof.
+    intros Hmm Hu Hv Huv HR pi Hpi Hnd Hneq.
+    assert (Htp : simple_path_in n R u v [u; v]).
+    { split; [apply path_from_to_pair; assumption|]. split.
+      - constructor; [intros [E|[]]; congruence|]. constructor; [intros []|constructor].
+      - split; [exact HR|exact I]. }
+    pose proof (Hmm (w u v - 1)%Z u v [u; v] pi Htp Hpi) as Hle.
+    cbn [pathmax] in Hle.
+    destruct (pathmax_witness w (w u v - 1)%Z pi ltac:(lia)) as [a [b [Hab E]]].
+    exists a, b. split; [exact Hab|].
+    destruct (Z_lt_le_dec (w u v) (w a b)) as [Hlt|Hge]; [exact Hlt|exfalso].
+    assert (Eq : w a b = w u v) by lia.
+    destruct Hpi as [[Hne Hfa] [Hhd Hl]]. rewrite Forall_forall in Hfa.
+    destruct (arc_on_In _ _ _ Hab) as [Hain Hbin].
+    destruct Hab as [l1 [l2 Epi]]. subst pi.
+    assert (Hnd2 : NoDup (a :: b :: l2)) by (apply NoDup_app_r in Hnd; exact Hnd).
+    assert (Hab' : a <> b).
+    { intros ->. apply NoDup_cons_iff in Hnd2. apply Hnd2. left; reflexivity. }
+    destruct (w_dist a b u v (Hfa a Hain) (Hfa b Hbin) Hu Hv Hab' Huv Eq) as [[-> ->]|[-> ->]].
+    - (* the arc is (u, v) itself *)
+      destruct l1 as [|x l1].
+      + cbn [app] in *. destruct l2 as [|y l2]; [apply Hneq; reflexivity|].
+        apply NoDup_cons_iff in Hnd2. destruct Hnd2 as [_ Hnd2].
+        apply NoDup_cons_iff in Hnd2. destruct Hnd2 as [Hv2 _]. apply Hv2.
+        rewrite <- Hl. rewrite (last_cons_ne u (v :: y :: l2) u u) by discriminate.
+        rewrite (last_cons_ne v (y :: l2) u u) by discriminate. apply last_In. discriminate.
+      + cbn in Hhd. injection Hhd as ->. cbn [app] in Hnd.
+        apply NoDup_cons_iff in Hnd. apply Hnd. apply in_or_app. right; left; reflexivity.
+    - (* the arc is (v, u) *)
+      destruct l1 as [|x l1].
+      + cbn in Hhd. congruence.
+      + cbn in Hhd. injection Hhd as ->. cbn [app] in Hnd.
+        apply NoDup_cons_iff in Hnd. apply Hnd. apply in_or_app. right; right; left; reflexivity.
+  Qed.
+
+  Lemma sole_is_arc (R : nat -> nat -> Prop) u v :
+    connected_by n R -> minimax_paths n w R -> u < n -> v < n ->
+    sole_minimax_arc n w u v -> R u v.
+  Proof.
+    intros Hconn Hmm Hu Hv Hsole.
+    destruct (Hconn u v Hu Hv) as [tp Htp].
+    destruct (list_eq_dec Nat.eq_dec tp [u; v]) as [->|Hne].
+    - destruct Htp as (_ & _ & [HR _]). exact HR.
+    - exfalso. pose proof Htp as (Hpath & Hnd & _).
+      destruct (Hsole tp Hpath Hnd Hne) as [a [b [Hab Hlt]]].
+      pose proof (Hmm (w u v) u v tp [u; v] Htp (path_from_to_pair n u v Hu Hv)) as Hle.
+      cbn [pathmax] in Hle. pose proof (pathmax_arc w (w u v) tp a b Hab). lia.
+  Qed.
+
+  Theorem minimax_arcs_characterised (R : nat -> nat -> Prop) :
+    connected_by n R -> minimax_paths n w R ->
+    forall u v, u < n -> v < n -> u <> v -> (R u v <-> sole_minimax_arc n w u v).
+  Proof.
+    intros Hconn Hmm u v Hu Hv Huv. split.
+    - apply minimax_arc_is_sole; assumption.
+    - apply sole_is_arc; assumption.
+  Qed.
+
+  Theorem minimax_arcs_unique (R1 R2 : nat -> nat -> Prop) :
+    connected_by n R1 -> minimax_paths n w R1 ->
+    connected_by n R2 -> minimax_paths n w R2 ->
+    forall u v, u < n -> v < n -> u <> v -> (R1 u v <-> R2 u v).
+  Proof.
+    intros C1 M1 C2 M2 u v Hu Hv Huv.
+    rewrite (minimax_arcs_characterised R1 C1 M1 u v Hu Hv Huv).
+    rewrite (minimax_arcs_characterised R2 C2 M2 u v Hu Hv Huv). tauto.
+  Qed.
+End Unique.
